@@ -2,6 +2,7 @@ package checks
 
 import (
 	"bytes"
+	"encoding/base64"
 	"encoding/json"
 	"fmt"
 	"math/rand"
@@ -344,7 +345,7 @@ func bugMutations() []hostileMut {
 		"author:null": nil, "author:string": "someone", "author:number": 7, "author:array": []any{1},
 		"author:empty-object": map[string]any{}, "author:id-null": map[string]any{"id": nil},
 		"author:id-number": map[string]any{"id": 12345}, "author:id-empty": map[string]any{"id": ""},
-		"author:id-unset": map[string]any{"id": "unset"},
+		"author:id-unset":   map[string]any{"id": "unset"},
 		"author:id-unknown": map[string]any{"id": strings.Repeat("ab", 32)},
 		"author:id-short":   map[string]any{"id": "abcdef"},
 		"author:id-path":    map[string]any{"id": "../../HEAD"},
@@ -453,6 +454,26 @@ func bugMutations() []hostileMut {
 	kind("label:empty-label", "must-reject", 5, func(o map[string]any) { o["added"] = []any{""} })
 	kind("label:number", "must-reject", 5, func(o map[string]any) { o["added"] = []any{1} })
 	kind("label:added-string", "must-reject", 5, func(o map[string]any) { o["added"] = "la" })
+	// a label listed twice in one change, removed by the next operation: valid by the documented rules
+	// (labels are a set), must compile to a state without the label
+	ms = append(ms, hostileMut{Name: "label:added-twice-then-removed", Class: "may-accept", NonRoot: true, Apply: func(h *hostileHistory, at int) {
+		c := &h.Commits[at]
+		o := opOfType(c, 5)
+		if o == nil {
+			return
+		}
+		o["added"] = []any{"zz-dup", "zz-dup"}
+		cp := map[string]any{}
+		for k, v := range o {
+			cp[k] = v
+		}
+		cp["added"] = []any{}
+		cp["removed"] = []any{"zz-dup"}
+		cp["nonce"] = base64.StdEncoding.EncodeToString([]byte("verif-second-label-op-nonce-0001"))
+		c.Ops = append(c.Ops, cp)
+	}})
+	kind("label:added-twice", "may-accept", 5, func(o map[string]any) { o["added"] = []any{"twice", "twice", "la"} })
+	kind("label:added-and-removed-same", "may-accept", 5, func(o map[string]any) { o["added"] = []any{"both"}; o["removed"] = []any{"both", "never-there"} })
 	kind("edit:target-malformed", "must-reject", 6, func(o map[string]any) { o["target"] = "xyz" })
 	kind("edit:target-empty", "must-reject", 6, func(o map[string]any) { o["target"] = "" })
 	kind("edit:target-number", "must-reject", 6, func(o map[string]any) { o["target"] = 5 })
@@ -681,7 +702,11 @@ func runHostileCase(c HostileCase) HostileResult {
 	}
 	w := &world.World{}
 	// victim's own world: an author, two bugs
-	if _, err := victim.NewAuthor("victim"); err != nil {
+	if va, err := victim.NewAuthor("victim"); err != nil {
+		res.HarnessError = err.Error()
+		return res
+	} else if err := identity.SetUserIdentity(victim.Repo, va); err != nil {
+		// (the cache refuses to pull without a user identity)
 		res.HarnessError = err.Error()
 		return res
 	}
@@ -951,10 +976,22 @@ func runHostileCase(c HostileCase) HostileResult {
 				fail("accepted-but-unreadable:"+mutKey(c.Mut), fmt.Sprintf("remote accepted with status %s but the local bug does not read: %v", status, err))
 			} else if verr := safeValidate(b); verr != nil {
 				fail("accepted-but-invalid:"+mutKey(c.Mut), fmt.Sprintf("remote accepted with status %s but Validate fails: %v", status, verr))
+			} else if cerr := safeCompile(b); cerr != nil {
+				fail("accepted-but-compile-panics:"+mutKey(c.Mut), fmt.Sprintf("remote accepted with status %s but compiling the bug's state crashes: %v", status, cerr))
 			}
 		}
 	}
 	return res
+}
+
+func safeCompile(b *bug.Bug) (err error) {
+	defer func() {
+		if p := recover(); p != nil {
+			err = fmt.Errorf("PANIC in Compile: %v", p)
+		}
+	}()
+	_ = b.Compile()
+	return nil
 }
 
 func safeValidate(b *bug.Bug) (err error) {
@@ -1136,7 +1173,8 @@ func c07Cases(r *mon.Run) []HostileCase {
 					api = "cache"
 				}
 				add(HostileCase{Entity: "bug", Mut: m.Name, Len: ln, At: at, Local: "absent", API: api, Place: "remote"})
-				if r.Thorough() || idx%3 == 0 {
+				// (placing a history under the name of the victim's own bug would simply overwrite that bug's ref)
+				if (r.Thorough() || idx%3 == 0) && m.Name != "ref:name-of-an-existing-local-bug" {
 					add(HostileCase{Entity: "bug", Mut: m.Name, Len: ln, At: at, Local: "absent", API: "entity", Place: "local"})
 				}
 			}
@@ -1192,7 +1230,12 @@ func c07Cases(r *mon.Run) []HostileCase {
 			}
 		}
 	}
-	nFuzz := r.Pick(300, 30000)
+	for _, ln := range []int{1, 2, 3} {
+		for _, api := range []string{"entity", "cache"} {
+			add(HostileCase{Entity: "identity", Mut: "idc:unrelated-root-same-first-version", Len: ln, At: ln, Local: "behind", API: api, Place: "remote"})
+		}
+	}
+	nFuzz := r.Pick(300, 12000)
 	for i := 0; i < nFuzz; i++ {
 		rng := mon.Rng(r.Seed, "c07-fuzz", i)
 		ent := "bug"
